@@ -39,6 +39,16 @@ def anchors(a: Anchors):
                                                                "_utils.fourier_shell_correlation(img0*_mask,img1*_mask,dfreq=dfq)",
                                                                "img0,img1=halves[i]"]))
 
+    # the three loader entry points are one computation: fsc -> fsc_with_average -> fsc_with_halfmaps, every argument handed on unchanged
+    from translate import forwards
+    HM = ["mask", "seed", "n_set", "dfreq", "zero_norm", "squeeze"]
+    a.fact("fsc_forwards_arguments", LB, "LoaderBase.fsc", "self.fsc_with_average(mask, seed, n_set, dfreq)[0]",
+           lambda fn: forwards(fn, ("self.fsc_with_average",), ["mask", "seed", "n_set", "dfreq", "zero_norm"],
+                               {"mask": ("mask",), "seed": ("seed",), "n_set": ("n_set",), "dfreq": ("dfreq",)})
+           and "returnself.fsc_with_average(" in norm(ast.unparse(fn)) and norm(ast.unparse(fn)).rstrip().endswith("[0]"))
+    a.fact("fsc_with_average_forwards_arguments", LB, "LoaderBase.fsc_with_average", "self.fsc_with_halfmaps(mask=, seed=, n_set=, dfreq=, zero_norm=, squeeze=False)",
+           lambda fn: forwards(fn, ("self.fsc_with_halfmaps",), HM, {"mask": ("mask",), "seed": ("seed",), "n_set": ("n_set",), "dfreq": ("dfreq",),
+                                                                   "zero_norm": ("zero_norm",), "squeeze": ("False",)}))
 
 # --------------------------------------------------------------------------
 def gen_shape_dfreq(rng):
